@@ -142,7 +142,9 @@ class PCA(Transformer):
         """Transform 2D data (sample x feature) from PC space back into original space."""
         if self.use_pca:
             X = X.rename({self.feature_name: "mode"})
-            return xr.dot(X, self.V.conj().T, dims="mode")
+            reconstructed = xr.dot(X, self.V.conj().T, dims="mode")
+            reconstructed.name = X.name
+            return reconstructed
         else:
             return X
 
@@ -154,6 +156,7 @@ class PCA(Transformer):
             Tinv = self.V.conj().T
             Tinv = Tinv.rename({"mode": dummy_dim})
             transformed = xr.dot(Tinv, X, dims=self.feature_name)
+            transformed.name = X.name
             return transformed.rename({dummy_dim: self.feature_name})
         else:
             return X
@@ -166,7 +169,9 @@ class PCA(Transformer):
             comps_pc_space = X.rename({self.feature_name: dummy_dim})
             V = self.V
             V = V.rename({"mode": dummy_dim})
-            return xr.dot(V, comps_pc_space, dims=dummy_dim)
+            comps = xr.dot(V, comps_pc_space, dims=dummy_dim)
+            comps.name = X.name
+            return comps
         else:
             return X
 
